@@ -301,7 +301,30 @@ class Check:
         print("%s: %s" % (self.pid, what), flush=True)
         print("VIOLATION property=%s replay=%s%s" % (self.pid, path, " no-failing-input-found" if no_input else ""), flush=True)
 
-    def finish(self, rule, trusted_base, assumptions, extra=None, level="proof"):
+    def coqchk(self, allowed_axioms=()):
+        """independent re-check of Properties.vo and everything it depends on (thorough tier)"""
+        with DirLock(self.dir):
+            rc, out = sh(["timeout", "3000", "coqchk", "-silent", "-o"] + self._coqargs() + [self.pid + ".Properties"],
+                         cwd=self.dir, timeout=3100)
+        summ = out[out.find("CONTEXT SUMMARY"):] if "CONTEXT SUMMARY" in out else out[-1500:]
+        m = re.search(r"\* Axioms:(.*?)\n\s*\n\* Constants/Inductives relying on type-in-type:(.*?)\n\s*\n\* Constants/Inductives relying on unsafe \(co\)fixpoints:(.*?)\n\s*\n\* Inductives whose positivity is assumed:(.*?)\n", summ + "\n", re.S)
+        res = {"rc": rc, "summary": summ[-2500:]}
+        if rc == 0 and m:
+            axioms = [a.strip() for a in m.group(1).replace("<none>", "").split("\n") if a.strip()]
+            res["axioms"] = axioms
+            unsafe = [g.strip() for g in (m.group(2), m.group(3), m.group(4)) if g.strip() != "<none>"]
+            res["ok"] = not unsafe and all(any(a.endswith(x) or x in a for x in allowed_axioms) for a in axioms)
+        else:
+            res["ok"] = False
+        return res
+
+    def finish(self, rule, trusted_base, assumptions, extra=None, level="proof", allowed_axioms=()):
+        if self.tier == "thorough" and self.proof.get("ok") and os.environ.get("VERIF_NO_COQCHK") != "1":
+            ck = self.coqchk(allowed_axioms=tuple(allowed_axioms) + tuple(a for l in self.proof.get("assumptions", {}).values() for a in l))
+            extra = dict(extra or {}, coqchk=ck)
+            if not ck["ok"]:
+                self.violation("coqchk does not accept Properties.vo (or reports unexpected axioms / unsafe constructs)",
+                               {"broken_obligation": "coqchk %s.Properties" % self.pid, "coqchk": ck}, no_input=True)
         theorems = self.proof.get("theorems", [])
         obligations = len(theorems)
         discharged = obligations if self.proof.get("ok") else 0
@@ -361,12 +384,13 @@ def forbidden_scan(pid):
                 for m in pat.finditer(txt_nc):
                     hits.append("%s/%s: %s" % (os.path.basename(d), fn, m.group(0)))
                 # Variable / Hypothesis outside a section
-                depth = 0
+                stack = []
                 for line in txt_nc.split("\n"):
-                    if re.match(r"\s*Section\s+\w+", line):
-                        depth += 1
-                    elif re.match(r"\s*End\s+\w+", line) and depth > 0:
-                        depth -= 1
-                    elif depth == 0 and re.match(r"\s*(Variable|Variables|Hypothesis|Hypotheses|Context)\b", line):
+                    ms = re.match(r"\s*(Section|Module Type|Module)\s+(\w+)", line)
+                    if ms and not re.search(r":=", line):
+                        stack.append(ms.group(1))
+                    elif re.match(r"\s*End\s+\w+", line) and stack:
+                        stack.pop()
+                    elif "Section" not in stack and re.match(r"\s*(Variable|Variables|Hypothesis|Hypotheses|Context)\b", line):
                         hits.append("%s/%s: %s outside section" % (os.path.basename(d), fn, line.strip()))
     return hits
